@@ -10,7 +10,7 @@ TRUSTED = [
 ]
 
 
-def report_failures(out, unit, crate_name, kani_filter=None, native_filter=None):
+def report_failures(out, unit, crate_name, kani_filter=None, native_filter=None, tool_limit_fallback=False):
     k = unit['kani']
     seen = set()
     for kf in k['failures']:
@@ -31,7 +31,13 @@ def report_failures(out, unit, crate_name, kani_filter=None, native_filter=None)
                                   failing_input={'crate': crate_name, 'harness': h, 'bytes': flat, 'failed_on_real_code': rp['failed'] or ['no_panic']},
                                   replay_transcript=rp['stdout'] + rp['stderr'])
                 confirmed = True
-        if not confirmed:
+        tool_limit = (not kf['failed_checks'] or all('unwinding assertion' in c for c in kf['failed_checks'])) and not kf['playback']
+        if not confirmed and tool_limit and tool_limit_fallback and not unit['native_failures']:
+            # Kani reached no verdict on the obligations of this harness (unwinding bound exceeded by restructured code, CBMC crash /
+            # out of memory): not a failed obligation.  The native enumerations of the same contracts all passed.
+            out.proof_lost.append('kani gave no verdict for harness %s (%s); the native enumerations of the same contracts found no failing input (bounded)'
+                                  % (h, '; '.join(kf['failed_checks'])[:200] or kf['raw'].strip().split('\n')[0][:160]))
+        elif not confirmed:
             out.inconclusive.append('kani harness %s failed (%s) but no counterexample replays on the real code: treated as a tool artefact'
                                     % (h, kf['failed_checks']))
     for nf in unit['native_failures']:
